@@ -45,6 +45,7 @@ func Run(tier string, seed int64, outDir string) *common.Meta {
 	runShadowed(meta, seed, outDir)
 	runSynthClaims(meta, outDir)
 	runCaseOrderGeneric(meta, outDir)
+	runCaseOrderLocal(meta, seed, outDir)
 	meta.Rule = "distinct_nontrivial = number of distinct generated expressions / type switches on which at least one of the claim-producing checkers fired (each compared with the model matcher in Coq and executed with instrumentation)"
 	return meta
 }
@@ -71,7 +72,7 @@ func genClaimExpr(g *exprgen.G, r interface{ Intn(int) int }) string {
 	}
 	floatX := func() string { return pick("p", "q", "p", "ff()", "p + 1.5", "hf(p)", "mf", "mg", "fmf()") }
 	constI := func() string {
-		return pick("0", "1", "2", "5", "7", "9", "10", "-3", "2 - 1", "(4)", "3 + 4", "0x10", "010")
+		return pick("0", "1", "2", "5", "7", "9", "10", "-3", "2 - 1", "(4)", "3 + 4", "0x10", "010", "cLim", "cLo", "cHi", "cT", "cLim + 1", "-cOne")
 	}
 	var e string
 	switch n := r.Intn(108); {
@@ -118,6 +119,12 @@ func genClaimExpr(g *exprgen.G, r interface{ Intn(int) int }) string {
 			base := []float64{0.5, 1.5, 2, 7.25, -1.5, 10}[r.Intn(6)]
 			d := []float64{0, 0, 0.5, 0.5, 1, 3, -1, -4}[r.Intn(8)]
 			c1, c2 = strconv.FormatFloat(base, 'f', -1, 64), strconv.FormatFloat(base+d, 'f', -1, 64)
+			if r.Intn(6) == 0 {
+				c1 = pick("cF", "cLo", "cLim")
+			}
+			if r.Intn(6) == 0 {
+				c2 = pick("cF", "cHi", "cLim")
+			}
 		} else {
 			x = intX()
 			base := []int{0, 1, 2, 5, 7, 9, 10, -3}[r.Intn(8)]
@@ -186,19 +193,38 @@ func genClaimExpr(g *exprgen.G, r interface{ Intn(int) int }) string {
 			e = x + "[len(" + y + ")-1] == " + x + "[0]"
 		}
 	case n < 92: // dupSubExpr
-		op := pick("==", "!=", "<", ">", "<=", ">=", "&&", "||", "-", "/", "%", "+")
+		// every operator the checker's table names, on every operand type it applies to
+		op := pick("==", "!=", "<", ">", "<=", ">=", "&&", "||", "-", "/", "%", "+", "|", "&", "^", "&^")
 		var x string
+		isInt := false
 		switch r.Intn(4) {
 		case 0:
-			x = floatX()
+			x = pick(floatX(), "p + q", "q + p", "p - q")
 		case 1:
-			x = pick("s", "t", "fs()", "s + t")
+			x = pick("s", "t", "fs()", "s + t", "t + s", "s + t + s")
 		default:
-			x = intX()
+			x = pick(intX(), intX(), "a + b", "b * c", "a | b", "a & c", "a ^ b", "a - b", "a == b")
+			isInt = true
+		}
+		if !isInt && (op == "|" || op == "&" || op == "^" || op == "&^") {
+			op = pick("==", "!=", "<", ">=")
+		}
+		if x == "a == b" {
+			op = pick("==", "!=", "&&", "||")
 		}
 		y := x
-		if r.Intn(7) == 0 {
+		switch r.Intn(7) {
+		case 0:
 			y = pick("a", "b", "p", "s")
+		case 1, 2:
+			// operands that are NOT the same expression but look alike: swapped operands of the top-level
+			// operator, a re-association, another spelling of a literal
+			if i := strings.LastIndex(x, " "); i > 0 && strings.Count(x, " ") == 2 && !strings.ContainsAny(x, "()") {
+				f := strings.Fields(x)
+				y = f[2] + " " + f[1] + " " + f[0]
+			} else if x == "s + t + s" {
+				y = pick("s + (t + s)", "t + s + s")
+			}
 		}
 		switch op {
 		case "&&", "||":
@@ -214,7 +240,7 @@ func genClaimExpr(g *exprgen.G, r interface{ Intn(int) int }) string {
 				return s
 			}
 			e = wrap(b) + " " + op + " " + wrap(b2)
-		case "-", "/", "%", "+":
+		case "-", "/", "%", "+", "|", "&", "^", "&^":
 			if (op == "%" || op == "/") && (strings.ContainsAny(x, "pqf") || strings.ContainsAny(y, "pqst")) {
 				op = "-"
 			}
@@ -259,18 +285,32 @@ func genClaimExpr(g *exprgen.G, r interface{ Intn(int) int }) string {
 				e = rx + "." + m + "(" + ry + ") == 0"
 			}
 		case 0:
-			e = "strings.Contains(" + sx + ", " + sy + ")"
+			e = pick("strings.Contains", "strings.HasPrefix", "strings.HasSuffix", "strings.EqualFold") + "(" + sx + ", " + sy + ")"
 		case 1:
-			e = "strings.Index(" + sx + ", " + sy + ") >= a"
+			e = pick("strings.Index", "strings.LastIndex") + "(" + sx + ", " + sy + ") >= a"
 		case 2:
-			e = "strings.Compare(" + sx + ", " + sy + ") == 0"
+			switch r.Intn(3) {
+			case 0:
+				e = "strings.Compare(" + sx + ", " + sy + ") == 0"
+			case 1:
+				e = "strings.Replace(" + pick("s", "t", "fs()") + ", " + sx + ", " + sy + ", " + pick("-1", "a", "1") + ") == s"
+			default:
+				e = "strings.ReplaceAll(" + pick("s", "t", "fs()") + ", " + sx + ", " + sy + ") == s"
+			}
 		default:
 			bx := pick("bs", "fbs()", "[]byte(s)", "bs[:]")
 			by := bx
 			if r.Intn(5) == 0 {
 				by = pick("bs", "[]byte(t)")
 			}
-			e = "bytes.Equal(" + bx + ", " + by + ")"
+			switch r.Intn(3) {
+			case 0:
+				e = "bytes.Equal(" + bx + ", " + by + ")"
+			case 1:
+				e = pick("bytes.Contains", "bytes.HasPrefix", "bytes.HasSuffix", "bytes.EqualFold") + "(" + bx + ", " + by + ")"
+			default:
+				e = pick("bytes.Index", "bytes.LastIndex", "bytes.Compare") + "(" + bx + ", " + by + ") >= a"
+			}
 		}
 	default:
 		e = g.BoolExpr()
@@ -306,6 +346,21 @@ func runExprClaims(meta *common.Meta, seed int64, outDir string, n int) {
 				panic("generator produces mostly ill-typed expressions: " + err.Error())
 			}
 			continue
+		}
+		cases = append(cases, &exprCase{fn: fmt.Sprintf("f%d", len(cases)), src: e, msgs: map[string][]string{}})
+	}
+	// instances every run contains: self-comparisons of every float-like operand kind (predeclared, defined,
+	// complex, defined complex, struct field, type conversion), operands that are equal expressions but distinct
+	// objects (addresses of composite literals)
+	for _, e := range []string{"p != p", "mf != mf", "mf == mf", "mf <= mf", "cx != cx", "cx == cx", "mc != mc", "mc2 == mc2", "w.g != w.g", "float64(mf) != float64(mf)",
+		"myF(p) == myF(p)", "fa[0] != fa[0]", "&st{a} == &st{a}", "&st{a} != &st{a}", "&myArr{a} == &myArr{a}", "&a == &a", "pa == pa", "pe != pe",
+		"-p == -p", "p - p == 0", "mf - mf == 0", "cx - cx == 0"} {
+		if seen[e] {
+			continue
+		}
+		seen[e] = true
+		if _, err := exprgen.Load("p.go", lintHeader+exprgen.LintPreamble+"func f("+exprgen.Params+") bool { return "+e+" }\n"); err != nil {
+			panic("fixed claim instance does not type-check: " + e + ": " + err.Error())
 		}
 		cases = append(cases, &exprCase{fn: fmt.Sprintf("f%d", len(cases)), src: e, msgs: map[string][]string{}})
 	}
@@ -463,14 +518,22 @@ func runExprClaims(meta *common.Meta, seed int64, outDir string, n int) {
 			dc.Expect = "panic"
 		case "dupSubExpr":
 			b := node.(*ast.BinaryExpr)
-			dc.Orig = "fmt.Sprint(" + l.Text(b.X) + ") == fmt.Sprint(" + l.Text(b.Y) + ")"
+			dc.Orig = "verifSame(" + l.Text(b.X) + ", " + l.Text(b.Y) + ")"
 			dc.Expect = "true"
 		case "dupArg":
 			ce := node.(*ast.CallExpr)
 			if len(ce.Args) == 1 { // method rule: receiver and argument
 				dc.Orig = "fmt.Sprint(" + l.Text(ce.Fun.(*ast.SelectorExpr).X) + ") == fmt.Sprint(" + l.Text(ce.Args[0]) + ")"
 			} else {
-				dc.Orig = "fmt.Sprint(" + l.Text(ce.Args[0]) + ") == fmt.Sprint(" + l.Text(ce.Args[1]) + ")"
+				// the duplicated pair: the first two adjacent arguments with the same text
+				i := 0
+				for j := 0; j+1 < len(ce.Args); j++ {
+					if l.Text(ce.Args[j]) == l.Text(ce.Args[j+1]) {
+						i = j
+						break
+					}
+				}
+				dc.Orig = "fmt.Sprint(" + l.Text(ce.Args[i]) + ") == fmt.Sprint(" + l.Text(ce.Args[i+1]) + ")"
 			}
 			dc.Expect = "true"
 		}
@@ -523,6 +586,8 @@ func runExprClaims(meta *common.Meta, seed int64, outDir string, n int) {
 			class = "mutating-conjunct"
 		} else if impureCallRe.MatchString(m.Case.Orig) {
 			class = "impure-operand"
+		} else if f.checker == "dupSubExpr" && strings.Contains(m.Case.Orig, "verifSame(&") {
+			class = "distinct-objects-equal-text"
 		} else if f.checker == "offBy1" {
 			if ix, ok := findFlagged(l, rets[f.c.fn], f.pos, f.checker, f.text).(*ast.IndexExpr); ok {
 				switch l.Info.TypeOf(ix.X).Underlying().(type) {
@@ -541,14 +606,16 @@ func runExprClaims(meta *common.Meta, seed int64, outDir string, n int) {
 	}
 }
 
-var outsideFragmentRe = regexp.MustCompile(`\b(ms|mi|mm|ma|pa|w|gxs|fa|mc|mc2|mf|mg|fmf|vv|it|val|gn|bumpG|func)\b`)
+// operands the model has no counterpart for: maps, pointers to arrays, complex numbers, opaque calls returning a
+// defined type, struct values with methods, package variables changed by calls, closures, interface-typed fields
+var outsideFragmentRe = regexp.MustCompile(`\b(gxs|fa|mc|mc2|fmf|vv|it|val|gn|bumpG|func|refill|err|cx|st|myArr|myF|float64|pe)\b|(?:^|[^&])&[A-Za-z(]`)
 
 var impureCallRe = regexp.MustCompile(`\b(fi|gi|hi|fu|ff|hf|fs|fb|fbs|fxs|fmf|Next)\(`)
 var mutatingRe = regexp.MustCompile(`refill\(\)|bumpG\(\)|func\(\) bool`)
 
 // findFlagged locates the expression a diagnostic is about: the outermost node of the right kind starting at pos.
 func findFlagged(l *exprgen.Linted, root ast.Expr, pos token.Pos, checker, msg string) ast.Expr {
-	var found ast.Expr
+	var found, dupFallback ast.Expr
 	ast.Inspect(root, func(n ast.Node) bool {
 		if found != nil || n == nil {
 			return false
@@ -565,7 +632,7 @@ func findFlagged(l *exprgen.Linted, root ast.Expr, pos token.Pos, checker, msg s
 		case "dupArg":
 			if ce, ok := e.(*ast.CallExpr); ok {
 				_, isSel := ce.Fun.(*ast.SelectorExpr)
-				if len(ce.Args) == 2 || (len(ce.Args) == 1 && isSel) {
+				if (len(ce.Args) >= 2 && len(ce.Args) <= 4) || (len(ce.Args) == 1 && isSel) {
 					found = e
 				}
 			}
@@ -583,14 +650,23 @@ func findFlagged(l *exprgen.Linted, root ast.Expr, pos token.Pos, checker, msg s
 						}
 					}
 				case "dupSubExpr":
-					if strings.Contains(msg, "`"+b.Op.String()+"`") && l.Text(b.X) == l.Text(b.Y) {
-						found = e
+					// the binary expression with the operator the message names; several may start at pos
+					// (`a - a == a`): prefer the one whose operands are textually identical
+					if strings.Contains(msg, "`"+b.Op.String()+"`") {
+						if l.Text(b.X) == l.Text(b.Y) {
+							found = e
+						} else if dupFallback == nil {
+							dupFallback = e
+						}
 					}
 				}
 			}
 		}
 		return found == nil
 	})
+	if found == nil {
+		return dupFallback
+	}
 	return found
 }
 
@@ -629,6 +705,29 @@ func (T4) M3() {}
 type P1 struct{}
 
 func (*P1) M1() {}
+
+// interfaces declared ONLY by embedding (no explicit method, non-empty method set), embedding plus an explicit
+// method, and the empty interface under its other spellings
+type I5 interface {
+	I1
+	I3
+}
+type I6 interface{ I2 }
+type I7 interface {
+	error
+	I1
+}
+type I8 interface {
+	I3
+	M1()
+}
+type E0 = interface{}
+type E1 interface{}
+
+type T5 struct{}
+
+func (T5) M1()           {}
+func (T5) Error() string { return "" }
 `
 
 // universe of case entries: text, kind
@@ -637,7 +736,12 @@ var universe = []struct{ text, kind string }{
 	{"interface{}", "KIface"}, {"I1", "KIface"}, {"I2", "KIface"}, {"I3", "KIface"}, {"I4", "KIface"}, {"error", "KIface"},
 	{"T0", "KConcrete"}, {"T1", "KConcrete"}, {"T2", "KConcrete"}, {"T3", "KConcrete"}, {"T4", "KConcrete"},
 	{"P1", "KConcrete"}, {"*P1", "KConcrete"}, {"*T1", "KConcrete"}, {"*T2", "KConcrete"}, {"int", "KConcrete"}, {"string", "KConcrete"},
+	// appended (indices above are referred to by dynValues)
+	{"I5", "KIface"}, {"I6", "KIface"}, {"I7", "KIface"}, {"I8", "KIface"}, {"any", "KIface"}, {"E0", "KIface"}, {"E1", "KIface"}, {"T5", "KConcrete"},
 }
+
+// spellings of one and the same type: at most one of them may occur in a switch (duplicate case otherwise)
+var sameType = map[string]bool{"interface{}": true, "any": true, "E0": true}
 
 // run-time values of every concrete type of the universe, plus the nil interface
 var dynValues = []struct {
@@ -645,7 +749,7 @@ var dynValues = []struct {
 	id   int // universe index of the dynamic type, -1 for nil
 }{
 	{"nil", -1}, {"T0{}", 7}, {"T1{}", 8}, {"T2{}", 9}, {"T3{}", 10}, {"T4{}", 11}, {"P1{}", 12}, {"&P1{}", 13}, {"&T1{}", 14}, {"&T2{}", 15}, {"1", 16}, {`"x"`, 17},
-	{"(*P1)(nil)", 13}, {"(*T1)(nil)", 14},
+	{"(*P1)(nil)", 13}, {"(*T1)(nil)", 14}, {"T5{}", 25},
 }
 
 type swCase struct {
@@ -664,6 +768,23 @@ func runCaseOrder(meta *common.Meta, seed int64, outDir string, n int) {
 	for len(sws) < n {
 		k := 2 + r.Intn(5)
 		perm := r.Perm(len(universe))[:k]
+		{
+			var kept []int
+			haveEmpty := false
+			for _, u := range perm {
+				if sameType[universe[u].text] {
+					if haveEmpty {
+						continue
+					}
+					haveEmpty = true
+				}
+				kept = append(kept, u)
+			}
+			perm = kept
+			if len(perm) < 2 {
+				continue
+			}
+		}
 		// bias: interfaces early half of the time
 		if r.Intn(2) == 0 {
 			sort.SliceStable(perm, func(i, j int) bool {
@@ -888,6 +1009,7 @@ type nvrCase struct {
 	fn, cond, x, y, op string
 	rets               []string
 	pre                []string // statements before the return
+	pro                string   // statements before the if (a declaration that shadows nil)
 	resT, final        string
 	msgs               []string
 }
@@ -961,6 +1083,43 @@ func runNilValReturn(meta *common.Meta, seed int64, outDir string) {
 		c.fn = fmt.Sprintf("n%d", len(cases))
 		cases = append(cases, c)
 	}
+	// `nil` is matched by its spelling: the same shapes under a local variable named nil (a non-nil value the
+	// checked operand is equal to)
+	for _, sh := range []struct{ x, resT, pro string }{
+		{"pe", "error", "nil := pe"}, {"pe", "*myE", "nil := pe"}, {"pe", "interface{}", "nil := pe"},
+		{"w.err", "error", "w.err = myErr{}; nil := error(myErr{})"},
+	} {
+		for _, op := range []string{"==", "!="} {
+			for _, pre := range [][]string{nil, {"a++"}} {
+				c := &nvrCase{resT: sh.resT, final: "nil", x: sh.x, y: "nil", op: op, cond: sh.x + " " + op + " nil", rets: []string{sh.x}, pre: pre, pro: sh.pro}
+				if _, err := exprgen.Load("p.go", lintHeader+exprgen.LintPreamble+renderNvr("f", c)); err != nil {
+					continue
+				}
+				c.fn = fmt.Sprintf("n%d", len(cases))
+				cases = append(cases, c)
+			}
+		}
+	}
+	// results that LOOK like the checked operand without being it: another object's field of the same name,
+	// another element of the same container, another variable; and the checked operand under parentheses
+	for _, la := range []struct{ pro, x, ret, resT string }{
+		{"pp := &node{a, nil}; pq := &node{b, &node{c, nil}}", "pp.next", "pq.next", "*node"},
+		{"pp := &node{a, nil}; pq := &node{b, &node{c, nil}}", "pp.next", "pp.next", "*node"},
+		{"pp := &node{a, nil}; pq := &node{b, &node{c, nil}}; _ = pq", "pp.next", "(pp.next)", "*node"},
+		{"mp := map[int][]int{0: {1}}", "mp[a]", "mp[0]", "[]int"},
+		{"mp := map[int][]int{0: {1}}", "mp[a]", "mp[a]", "[]int"},
+		{"ys := []int{1}", "xs", "ys", "[]int"},
+		{"ys := []int{1}; _ = ys", "(xs)", "xs", "[]int"},
+		{"ys := [][]int{{1}, nil}", "ys[1]", "ys[0]", "[]int"},
+		{"wq := &wr{err: myErr{}}", "w.err", "wq.err", "error"},
+	} {
+		c := &nvrCase{resT: la.resT, final: "nil", x: la.x, y: "nil", op: "==", cond: la.x + " == nil", rets: []string{la.ret}, pro: la.pro}
+		if _, err := exprgen.Load("p.go", lintHeader+exprgen.LintPreamble+renderNvr("f", c)); err != nil {
+			continue
+		}
+		c.fn = fmt.Sprintf("n%d", len(cases))
+		cases = append(cases, c)
+	}
 	var src strings.Builder
 	src.WriteString(lintHeader + exprgen.LintPreamble)
 	for _, c := range cases {
@@ -995,7 +1154,13 @@ func runNilValReturn(meta *common.Meta, seed int64, outDir string) {
 			continue
 		}
 		c := byFn[fd.Name.Name]
-		ifs := fd.Body.List[0].(*ast.IfStmt)
+		var ifs *ast.IfStmt
+		for _, st := range fd.Body.List {
+			if x, ok := st.(*ast.IfStmt); ok {
+				ifs = x
+				break
+			}
+		}
 		cond := ifs.Cond.(*ast.BinaryExpr)
 		// oracle: run the if-body up to the return and observe whether the checked value is nil there
 		if len(c.msgs) > 0 {
@@ -1004,12 +1169,33 @@ func runNilValReturn(meta *common.Meta, seed int64, outDir string) {
 			if pre != "" {
 				pre += "; "
 			}
-			text := "func() bool { if " + c.cond + " { " + pre + "return (" + l.Text(cond.X) + ") == nil }; return true }()"
+			pro := c.pro
+			if pro != "" {
+				pro += "; "
+			}
+			// nil-ness is judged by a helper declared where `nil` is the predeclared identifier
+			// the claim is about what the return statement returns: one of its results must be nil there
+			var obs []string
+			for _, rt := range c.rets {
+				obs = append(obs, "verifIsNil("+rt+")")
+			}
+			text := "func() bool { " + pro + "if " + c.cond + " { " + pre + "return " + strings.Join(obs, " || ") + " }; return true }()"
+			found := false
+			for _, rt := range c.rets {
+				if strings.ReplaceAll(rt, " ", "") == strings.ReplaceAll(l.Text(cond.X), " ", "") {
+					found = true
+				}
+			}
+			if !found {
+				meta.Fail("C12/nilValReturn/replacement-not-in-return",
+					fmt.Sprintf("nilValReturn says %q for `%s; if %s { return %s }`: the expression to replace does not occur among the returned expressions", c.msgs[0], c.pro, c.cond, strings.Join(c.rets, ", ")),
+					map[string]interface{}{"prologue": c.pro, "cond": c.cond, "returns": c.rets, "message": c.msgs[0]})
+			}
 			dcs = append(dcs, &exprgen.DiffCase{ID: len(dcs), Kind: "expr", Orig: text, Expect: "true", Inputs: exprgen.Grid(rg, text, 40), Tag: c})
 			// "replace X with nil": the function's result as the caller sees it, before and after the replacement
 			if len(c.rets) == 1 && c.rets[0] == l.Text(cond.X) {
 				fn := func(ret string) string {
-					return "func() string { r := func() " + c.resT + " { if " + c.cond + " { " + pre + "return " + ret + " }; return " + c.final +
+					return "func() string { r := func() " + c.resT + " { " + pro + "if " + c.cond + " { " + pre + "return " + ret + " }; return " + c.final +
 						" }(); return fmt.Sprintf(\"%v|%t\", r, r == nil) }()"
 				}
 				dcs = append(dcs, &exprgen.DiffCase{ID: len(dcs), Kind: "expr", Orig: fn(c.rets[0]), New: fn("nil"), Inputs: exprgen.Grid(rg, text, 40), Tag: c})
@@ -1066,6 +1252,9 @@ func runNilValReturn(meta *common.Meta, seed int64, outDir string) {
 		if len(c.pre) > 0 {
 			class = "mutated-before-return"
 		}
+		if strings.Contains(c.pro, "nil :=") {
+			class = "shadowed-nil"
+		}
 		if m.Case.Expect == "" {
 			// the suggested replacement changes what the caller gets
 			meta.Fail("C12/nilValReturn/typed-nil-in-interface",
@@ -1073,8 +1262,8 @@ func runNilValReturn(meta *common.Meta, seed int64, outDir string) {
 				map[string]interface{}{"cond": c.cond, "result_type": c.resT, "input": m.Input, "original": m.Orig, "with_nil": m.New})
 			continue
 		}
-		meta.Fail("C12/nilValReturn/"+class, fmt.Sprintf("nilValReturn claims the returned %s is nil in `if %s { %s; return %s }`, but it is not nil at the return (%s)", c.x, c.cond, strings.Join(c.pre, "; "), strings.Join(c.rets, ", "), m.Orig),
-			map[string]interface{}{"cond": c.cond, "body": append(append([]string{}, c.pre...), "return "+strings.Join(c.rets, ", ")), "input": m.Input, "observed": m.Orig})
+		meta.Fail("C12/nilValReturn/"+class, fmt.Sprintf("nilValReturn claims the returned %s is nil in `%s; if %s { %s; return %s }`, but it is not nil at the return (%s)", c.x, c.pro, c.cond, strings.Join(c.pre, "; "), strings.Join(c.rets, ", "), m.Orig),
+			map[string]interface{}{"prologue": c.pro, "cond": c.cond, "body": append(append([]string{}, c.pre...), "return "+strings.Join(c.rets, ", ")), "input": m.Input, "observed": m.Orig})
 	}
 }
 
@@ -1083,7 +1272,11 @@ func renderNvr(name string, c *nvrCase) string {
 	for _, p := range c.pre {
 		pre += "\t\t" + p + "\n"
 	}
-	return fmt.Sprintf("func %s(%s) %s {\n\tif %s {\n%s\t\treturn %s\n\t}\n\treturn %s\n}\n", name, exprgen.Params, c.resT, c.cond, pre, strings.Join(c.rets, ", "), c.final)
+	pro := ""
+	if c.pro != "" {
+		pro = "\t" + c.pro + "\n"
+	}
+	return fmt.Sprintf("func %s(%s) %s {\n%s\tif %s {\n%s\t\treturn %s\n\t}\n\treturn %s\n}\n", name, exprgen.Params, c.resT, pro, c.cond, pre, strings.Join(c.rets, ", "), c.final)
 }
 
 // ---------------------------------------------------------------- the claim rules as the binary executes them
@@ -1268,6 +1461,9 @@ func runCaseOrderGeneric(meta *common.Meta, outDir string) {
 		{"I3", []string{"T", "T3", "nil"}, []string{"T3", "T4"}},
 		{"interface{}", []string{"T", "int", "T0"}, []string{"int", "string", "T0"}},
 		{"I1", []string{"T", "I2"}, []string{"T1", "T2"}},
+		{"interface{ int | string }", []string{"T", "int", "string"}, []string{"int", "string"}},
+		{"I5", []string{"T", "T4", "T3"}, []string{"T4"}},
+		{"any", []string{"T", "T0", "nil"}, []string{"T0", "int"}},
 	}
 	var src strings.Builder
 	src.WriteString("package p\n" + latticeSrc)
